@@ -320,6 +320,12 @@ impl VideoState {
         object_line = object_height - object_line - 1;
       }
 
+      // in 8x16 mode, the hardware ignores the lowest bit of the tile index
+      let tile_index = if self.object_double_height {
+        tile_index & 0xfe
+      } else {
+        tile_index
+      };
       let row_data = self.get_object_row(video_ram, tile_index, object_line as usize, flip_x);
 
       objects_found.push(
